@@ -4,7 +4,7 @@ use crate::core::*;
 use crate::kx::{self, Outcome, RunOpts};
 use crate::lang::*;
 use crate::pgen as gen_;
-use koto_lexer::{Lexer, Token};
+use koto_lexer::Token;
 use serde_json::{Value, json};
 
 pub static PROP: Prop = Prop {
@@ -29,7 +29,7 @@ fn canon(src: &str, cosmetic: bool) -> Result<String, String> {
 
 /// (a) trivia variant of a text, driven by a seed
 pub fn trivia_variant(src: &str, seed: u64) -> Option<String> {
-    let toks: Vec<_> = Lexer::new(src).collect();
+    let toks: Vec<_> = crate::textgen::lex_all(src);
     if toks.iter().any(|t| t.token == Token::Error) {
         return None;
     }
